@@ -245,7 +245,12 @@ func (p *Parser) deconstructMap(rv reflect.Value, numBuffers *int, undo *undoLog
 				x := reflect.New(mv.Type())
 				x.Elem().Set(n)
 				undo.add(func() { rv.SetMapIndex(mk, original) })
-				rv.SetMapIndex(mk, x)
+				if rv.Type().Elem().Kind() == reflect.Interface {
+					rv.SetMapIndex(mk, x)
+				} else {
+					// A map of binaries (not of `any`): the element is the binary itself, not a pointer to it.
+					rv.SetMapIndex(mk, x.Elem())
+				}
 				return nil
 			}
 
@@ -546,7 +551,12 @@ func (r *reconstructor) reconstructMap(rv reflect.Value) error {
 
 					x := reflect.New(mv.Type())
 					x.Elem().Set(n)
-					rv.SetMapIndex(mk, x)
+					if rv.Type().Elem().Kind() == reflect.Interface {
+						rv.SetMapIndex(mk, x)
+					} else {
+						// A map of binaries (not of `any`): the element is the binary itself, not a pointer to it.
+						rv.SetMapIndex(mk, x.Elem())
+					}
 					return nil
 				}
 
